@@ -719,12 +719,14 @@ def unit_create_db(U):
         if len(lst) < MAXFAIL:
             lst.append({"case": case, "expected": expected, "observed": observed})
 
+    maxn = 0
     with scratch() as (work, leak):
         nann = 0
         for fmt, lines, _order in db_annotations(U, CREATE_Q, CREATE_T):
             nann += 1
             ann = Ann(lines, fmt, work)
             n = len(lines)
+            maxn = max(maxn, n)
             for T in transforms:
                 kept = [r for r in (T.model(copy_rec(r)) for r in ann.recs) if r is not None]
                 if not kept:
@@ -796,13 +798,19 @@ def unit_create_db(U):
                      "transform called once per line; leading directive kept for file forms",
                      "GFF3 gene/mRNA/exon(/CDS) hierarchies: %d shapes (1-3 genes, 0-3 mRNAs, 0-2 exons without ID, shared exons, top-down / reversed / shuffled order, n <= %d lines) "
                      "x %d input forms x checklines 0..n+2%s x transform {none, drop, modify, fresh}"
-                     % (len(CREATE_T if U.thorough else CREATE_Q), 22, len(FORMS), "" if U.thorough else " (thinned to {0,1,n-2,n-1,n,n+2} for re-readable forms when n > 4)"),
+                     % (len(CREATE_T if U.thorough else CREATE_Q), maxn, len(FORMS), "" if U.thorough else " (thinned to {0,1,n-2,n-1,n,n+2} for re-readable forms when n > 4)"),
                      cases, fails, distinct=len(distinct))
     U.bounded_result("C13.bounded.create_db_gtf",
                      "GTF create_db(form, checklines, transform): stored lines == kept lines in order with ids <featuretype>_<k>; whole database (with inferred transcripts and genes) identical for all forms and checklines",
                      "%d GTF files (1-7 exon/CDS/start_codon lines, 1-3 transcripts, 1-2 genes) x %d forms x checklines %s x transform {none, drop, modify}"
                      % (len(gtf_sets), len(FORMS), "0..n+2" if U.thorough else "{0,1,n-1,n,n+2}"),
                      gcases, gfails, distinct=gcases)
+
+
+# Before /repo 285ec29 update() missed the level-2 row of a stored child whose parent and grandparent arrive later
+# (C10's business); with False the relation oracle is used for top-down files only and the relations of other files
+# are compared across forms and checklines.
+ORACLE_ALL_ORDERS = True
 
 
 def unit_update(U):
@@ -833,9 +841,6 @@ def unit_update(U):
                         continue
                     allrecs = brecs + kept
                     erows, erel = oracle_db(allrecs, oracle_ids(allrecs))
-                    # Which level-2 rows update() adds when a parent arrives after its stored child is C10's business:
-                    # the relation oracle is used for top-down files (ancestors always stored first); otherwise the
-                    # relations must be the same for all forms and checklines.
                     refrel = None
                     for c in range(0, m + 3):
                         for fname, (family, _) in FORMS.items():
@@ -850,11 +855,11 @@ def unit_update(U):
                             except Exception as e:
                                 fail(case, exp, "exception %r" % (e,))
                                 continue
-                            if order != "top":
+                            if order != "top" and not ORACLE_ALL_ORDERS:
                                 if refrel is None:
                                     refrel = (fname, c, rel)
                                 exp = {"features": jrows(erows), "relations (as for form %s, checklines %d)" % refrel[:2]: refrel[2]}
-                            if rows != erows or rel != (erel if order == "top" else refrel[2]):
+                            if rows != erows or rel != (erel if (order == "top" or ORACLE_ALL_ORDERS) else refrel[2]):
                                 fail(case, exp, {"features": jrows(rows), "relations": rel})
                             elif T.name != "none" and m and log != [rec_key(r) for r in ann.recs]:
                                 fail(case, {"transform called once per input item, in order": jkeys([rec_key(r) for r in ann.recs])}, {"calls": jkeys(log)})
